@@ -424,6 +424,13 @@ func build(cfg string) explore.System {
 		}
 		s.ops = keep
 		return s
+	case strings.HasPrefix(cfg, "ambig"):
+		// names that differ only in where the component boundaries / which the component types are:
+		// /a/b, the single component "a"+<8-byte type 8>+"b", the same value under type 264
+		// (264 = 8 mod 256) - tables keyed by a hash of the name must not confuse them
+		var c int
+		fmt.Sscanf(cfg, "ambig cap=%d", &c)
+		return newSys([]string{"/a/b", "/a%00%00%00%00%00%00%00%08b", "/a/264=b", "/a%08b"}, c, []int{1, 2}, []int{-1}, nil)
 	case strings.HasPrefix(cfg, "small"):
 		var c int
 		fmt.Sscanf(cfg, "small cap=%d", &c)
@@ -450,6 +457,9 @@ func main() {
 			for _, k := range []int{0, 2, 3} {
 				c = append(c, explore.Config{Name: fmt.Sprintf("full cap=%d", k), MaxDepth: d2, MaxDev: -1})
 			}
+			for _, k := range []int{2, 3} {
+				c = append(c, explore.Config{Name: fmt.Sprintf("ambig cap=%d", k), MaxDepth: d2, MaxDev: -1})
+			}
 			// audit of the canonical form: the same search without state de-duplication
 			ad := 3
 			if th {
@@ -475,7 +485,7 @@ func main() {
 		Assumptions: []string{
 			"a CanBePrefix lookup answered by the entry whose name equals the Interest name may or may not refresh its recency (both accepted); other prefix hits do not, exact (non-CanBePrefix) hits, inserts and refreshes do",
 			"prefix lookups may return any matching fresh-enough entry, or none",
-			"name-hash collisions are outside the universe",
+			"accidental 64-bit hash collisions are outside the universe; structural collisions (names whose components concatenate to the same bytes) are inside it (universe ambig)",
 		},
 	})
 }
